@@ -254,6 +254,34 @@ def code_tables():
     return tables, names
 
 
+def effective_options():
+    """[(attribute, config key)] of ServerOptions.__init__: self.add(name, "supervisord.<key>", ...):
+    the attributes Options.process_config copies from the [supervisord] section
+    (configured value wins; the add() default only fills an attribute that is still None)."""
+    mod = _parse('supervisor/options.py')
+    init = _find_method(_find_class(mod, 'ServerOptions'), '__init__')
+    out = []
+    for n in ast.walk(init):
+        if isinstance(n, ast.Call) and isinstance(n.func, ast.Attribute) and n.func.attr == 'add' \
+                and isinstance(n.func.value, ast.Name) and n.func.value.id == 'self' and len(n.args) >= 2:
+            a0, a1 = n.args[0], n.args[1]
+            if isinstance(a0, ast.Constant) and a0.value is None:
+                continue
+            _need(isinstance(a0, ast.Constant) and isinstance(a0.value, str) and isinstance(a1, ast.Constant)
+                  and isinstance(a1.value, str) and a1.value.startswith('supervisord.'),
+                  'ServerOptions.__init__: unexpected self.add(...) at line %d' % n.lineno)
+            out.append((n.lineno, a0.value, a1.value[len('supervisord.'):]))
+    out.sort()
+    _need(len(out) >= 10, 'ServerOptions.__init__: too few self.add(name, "supervisord.x") calls')
+    # the "Process defaults" loop of Options.process_config must test `is None`
+    pc = _find_method(_find_class(mod, 'Options'), 'process_config')
+    tests = [ast.dump(n.test) for n in ast.walk(pc) if isinstance(n, ast.If)]
+    want = ast.dump(ast.parse('getattr(self, name) is None').body[0].value)
+    _need(tests.count(want) == 2, 'Options.process_config: the defaults / required loops no longer test '
+                                  '`getattr(self, name) is None` (a configured falsy value would be replaced)')
+    return [(a, k) for _, a, k in out]
+
+
 def event_names():
     mod = _parse('supervisor/events.py')
     cls = _find_class(mod, 'EventTypes')
@@ -480,6 +508,8 @@ def generate():
     o.append('Definition req_param_names : list string := [%s].' % '; '.join(_cstr(x) for x in names['req_param_names']))
     o.append('Definition optional_param_names : list string := [%s].\n' % '; '.join(_cstr(x) for x in names['optional_param_names']))
     o.append('Definition event_type_names : list string :=\n  [%s].\n' % '; '.join(_cstr(x) for x in evs))
+    o.append('(* attributes of ServerOptions filled from the [supervisord] section: (attribute, key) *)')
+    o.append('Definition effective_options : list (string * string) :=\n  [%s].\n' % '; '.join('(%s, %s)' % (_cstr(x), _cstr(y)) for x, y in effective_options()))
     o.append('Definition log_levels : list (string * Z) := [%s].\n' % '; '.join('(%s, %d)' % (_cstr(a), b) for a, b in lv))
     o.append('Definition truthy_strings : list string := [%s].' % '; '.join(_cstr(x) for x in dt['TRUTHY_STRINGS']))
     o.append('Definition falsy_strings : list string := [%s].' % '; '.join(_cstr(x) for x in dt['FALSY_STRINGS']))
